@@ -52,14 +52,16 @@ theorem iterInit_rel (t : TreeTable) : IterRel t t.iterInit (Cursor.init t.abs) 
   cases t.root.toList <;> rfl
 
 theorem iterStep_sim (ho : TotalOrder cmp) {t : TreeTable} (h : t.Inv cmp) {it : TreeIter} {cu : Cursor}
-    (hr : IterRel t it cu) (op : IterOp) (m : Mem) (hm : t.size + 2 ≤ m.live) :
+    (hr : IterRel t it cu) (op : IterOp) (m : Mem) (hm : Owns t m) :
     (t.iterStep cmp it op m).1 = (cu.step t.abs op).1 ∧
     (t.iterStep cmp it op m).2.1.abs = (cu.step t.abs op).2.2 ∧
     (t.iterStep cmp it op m).2.1.Inv cmp ∧
     IterRel (t.iterStep cmp it op m).2.1 (t.iterStep cmp it op m).2.2.1 (cu.step t.abs op).2.1 ∧
     ((t.iterStep cmp it op m).2.2.1.cur = .sentinel → it.cur = .sentinel) ∧
     ((op = .remove → it.cur ≠ .sentinel) → (t.iterStep cmp it op m).2.2.2.fault = m.fault) ∧
-    (t.iterStep cmp it op m).2.2.2.live + t.size = m.live + (t.iterStep cmp it op m).2.1.size := by
+    liveOf (t.iterStep cmp it op m).2.2.2 t.triple + t.size = liveOf m t.triple + (t.iterStep cmp it op m).2.1.size ∧
+    (t.iterStep cmp it op m).2.1.triple = t.triple := by
+  unfold Owns at hm
   obtain ⟨⟨done, hsplit⟩, hnext, hcur⟩ := hr
   have hnd := keys_nodup ho h.sorted
   cases op with
@@ -70,7 +72,7 @@ theorem iterStep_sim (ho : TotalOrder cmp) {t : TreeTable} (h : t.Inv cmp) {it :
       simp only [List.head?_nil] at hnext
       simp only [iterStep, iterNext, hnext, Cursor.step, Cursor.next, htodo]
       refine ⟨by triv, by triv, h, ⟨⟨done, by rw [hsplit, htodo]⟩, by rw [hnext, htodo]; rfl, hcur⟩,
-        fun x => x, fun _ => by triv, by triv⟩
+        fun x => x, fun _ => by triv, by triv, by triv⟩
     | cons k rest =>
       rw [htodo] at hnext hsplit
       simp only [List.head?_cons] at hnext
@@ -80,7 +82,7 @@ theorem iterStep_sim (ho : TotalOrder cmp) {t : TreeTable} (h : t.Inv cmp) {it :
       have hna := nextAfter_keys t.abs done k rest hsplit hk1
       simp only [iterStep, iterNext, hnext, Cursor.step, Cursor.next, htodo]
       refine ⟨by triv, by triv, h, ⟨⟨done ++ [k], by rw [hsplit]; simp⟩, hna, ?_⟩,
-        fun x => by simp at x, fun _ => by triv, by triv⟩
+        fun x => by simp at x, fun _ => by triv, by triv, by triv⟩
       exact ⟨rfl, by rw [hsplit]; simp, hk2⟩
   | remove =>
     cases hc : it.cur with
@@ -89,13 +91,13 @@ theorem iterStep_sim (ho : TotalOrder cmp) {t : TreeTable} (h : t.Inv cmp) {it :
       simp only at hcur
       simp only [iterStep, iterRemove, hc, Cursor.step, Cursor.remove, hcur]
       refine ⟨by triv, by triv, h, ⟨⟨done, hsplit⟩, hnext, by rw [hc]; exact hcur⟩,
-        fun _ => by triv, fun x => absurd rfl (x trivial), by simp⟩
+        fun _ => by triv, fun x => absurd rfl (x trivial), by cases t.triple <;> simp [liveOf, Mem.check], by triv⟩
     | null =>
       rw [hc] at hcur
       simp only at hcur
       simp only [iterStep, iterRemove, hc, Cursor.step, Cursor.remove, hcur]
       refine ⟨by triv, by triv, h, ⟨⟨done, hsplit⟩, hnext, by rw [hc]; exact hcur⟩,
-        fun x => x, fun _ => by triv, by triv⟩
+        fun x => x, fun _ => by triv, by triv, by triv⟩
     | «at» k =>
       rw [hc] at hcur
       simp only at hcur
@@ -116,33 +118,35 @@ theorem iterStep_sim (ho : TotalOrder cmp) {t : TreeTable} (h : t.Inv cmp) {it :
       congr 1
       exact List.filter_eq_self.2 (fun x hx => by simp; intro e; exact hnot (e ▸ hx))
 
-/-- a program respects the documented precondition of `iter_remove` (only after a successful
-`iter_next`) when no `remove` is executed while `current` is still the sentinel -/
-def IterValid (cmp : Nat → Nat → Int) (t : TreeTable) (it : TreeIter) : List IterOp → Mem → Prop
-  | [], _ => True
-  | op :: rest, m =>
-    (op = .remove → it.cur ≠ .sentinel) ∧
-    IterValid cmp (t.iterStep cmp it op m).2.1 (t.iterStep cmp it op m).2.2.1 rest (t.iterStep cmp it op m).2.2.2
-
 /-- **iterator programs** (C07, tree part): every program of `next`/`remove` calls on the C iterator
 behaves like the ideal cursor: same statuses, keys, values, same final content -/
 theorem iterRun_sim (ho : TotalOrder cmp) (prog : List IterOp) {t : TreeTable} (h : t.Inv cmp)
-    {it : TreeIter} {cu : Cursor} (hr : IterRel t it cu) (m : Mem) (hm : t.size + 2 ≤ m.live) :
+    {it : TreeIter} {cu : Cursor} (hr : IterRel t it cu) (m : Mem) (hm : Owns t m) :
     (t.iterRun cmp it prog m).1 = (cu.run t.abs prog).1 ∧
     (t.iterRun cmp it prog m).2.1.abs = (cu.run t.abs prog).2.2 ∧
     (t.iterRun cmp it prog m).2.1.Inv cmp ∧
     IterRel (t.iterRun cmp it prog m).2.1 (t.iterRun cmp it prog m).2.2.1 (cu.run t.abs prog).2.1 ∧
     (IterValid cmp t it prog m → (t.iterRun cmp it prog m).2.2.2.fault = m.fault) ∧
-    (t.iterRun cmp it prog m).2.2.2.live + t.size = m.live + (t.iterRun cmp it prog m).2.1.size := by
+    liveOf (t.iterRun cmp it prog m).2.2.2 t.triple + t.size = liveOf m t.triple + (t.iterRun cmp it prog m).2.1.size ∧
+    (t.iterRun cmp it prog m).2.1.triple = t.triple := by
   induction prog generalizing t it cu m with
-  | nil => exact ⟨rfl, rfl, h, hr, fun _ => rfl, rfl⟩
+  | nil => exact ⟨rfl, rfl, h, hr, fun _ => rfl, rfl, rfl⟩
   | cons op rest ih =>
-    obtain ⟨a, b, c, d, _, f, g⟩ := iterStep_sim ho h hr op m hm
-    have ih' := ih c d (t.iterStep cmp it op m).2.2.2 (by omega)
-    rw [b] at ih'
-    obtain ⟨a', b', c', d', f', g'⟩ := ih'
+    obtain ⟨a, b, c, d, _, f, g, i⟩ := iterStep_sim ho h hr op m hm
+    have hm' : Owns (t.iterStep cmp it op m).2.1 (t.iterStep cmp it op m).2.2.2 := by
+      unfold Owns at hm ⊢; rw [i]; omega
+    have ih' := ih c d (t.iterStep cmp it op m).2.2.2 hm'
+    rw [b, i] at ih'
+    obtain ⟨a', b', c', d', f', g', i'⟩ := ih'
     simp only [iterRun, Cursor.run]
-    refine ⟨by rw [a, a'], b', c', d', ?_, by omega⟩
+    refine ⟨by rw [a, a'], b', c', d', ?_, by omega, i'⟩
     intro hv
     rw [f' hv.2, f hv.1]
+
+/-- ledger consistency after an iterator program -/
+theorem iterRun_owns (ho : TotalOrder cmp) (prog : List IterOp) {t : TreeTable} (h : t.Inv cmp)
+    {it : TreeIter} {cu : Cursor} (hr : IterRel t it cu) (m : Mem) (hm : Owns t m) :
+    Owns (t.iterRun cmp it prog m).2.1 (t.iterRun cmp it prog m).2.2.2 := by
+  obtain ⟨_, _, _, _, _, g, i⟩ := iterRun_sim ho prog h hr m hm
+  unfold Owns at hm ⊢; rw [i]; omega
 end CC.TreeTable
